@@ -293,7 +293,24 @@ func (g *gen) stmt() *Node {
 		g.kinds["builtin-iter"]++
 		id := g.id()
 		it := g.iterable(id)
-		switch g.draw(5, "bk") {
+		switch g.draw(8, "bk") {
+		case 5, 6, 7:
+			// built-ins that iterate with a native callback and fail on the item itself (a number is not an entry /
+			// not an object): the iterator must be closed. The definitional interpreter has no Map/WeakSet/fromEntries,
+			// so these programs are judged by the trace-validity oracle alone.
+			g.kinds["builtin-iter-native"]++
+			var e *Node
+			switch g.draw(4, "bn") {
+			case 0:
+				e = New(Id("Map"), it)
+			case 1:
+				e = New(Id("WeakSet"), it)
+			case 2:
+				e = Call(Dot(Id("Object"), "fromEntries"), it)
+			default:
+				e = New(Id("WeakMap"), it)
+			}
+			return Try(Block(ExprStmt(e)), Id("eb"+strconv.Itoa(id)), Block(Log(Str("caught-native"))), nil)
 		case 0:
 			return VarDecl("var", Declarator(ArrPat(Id("d"+strconv.Itoa(id))), it))
 		case 1:
@@ -521,11 +538,16 @@ func judge(c *CFCase) verdict {
 	var v verdict
 	opt := Options{Strict: c.Strict, Placement: "global", MaxSteps: 50000}
 	ref := Run(c.Prog, opt)
+	traceOnly := false
 	if ref.Unsupported != "" {
-		evid.Excluded("refjs: unsupported construct")
-		return v
-	}
-	if ref.Fuel {
+		if !strings.Contains(ref.Unsupported, "Map") && !strings.Contains(ref.Unsupported, "WeakSet") && !strings.Contains(ref.Unsupported, "fromEntries") {
+			evid.Excluded("refjs: unsupported construct")
+			return v
+		}
+		// a built-in the interpreter does not have: the interpreter-independent oracle still applies
+		traceOnly = true
+		evid.Count("trace-oracle-only")
+	} else if ref.Fuel {
 		evid.Excluded("refjs: fuel exhausted")
 		return v
 	}
@@ -547,6 +569,9 @@ func judge(c *CFCase) verdict {
 	// (1) trace validity, no interpreter involved
 	if msg := checkTrace(g.Log, finallyIDs(c.Prog)); msg != "" {
 		v.f = &evid.Failure{Check: "controlflow", Key: "trace:" + strings.SplitN(msg, " ", 3)[0], Msg: fmt.Sprintf("trace validity: %s\n  goja log: %v\nsource:\n%s", msg, g.Log, src), Case: c}
+		return v
+	}
+	if traceOnly {
 		return v
 	}
 	// (2) exact trace, completion and exception equal the definitional interpreter
